@@ -162,6 +162,9 @@ func checkBalloons(e *executor, r *stepResult) *vfkit.Violation {
 		} else if had[c.ID] {
 			had[c.ID] = false
 			lost[c.ID] = r.lostBy(c.ID)
+			if lost[c.ID] == "updateConfig" && r.CfgError != nil {
+				lost[c.ID] = "updateConfig-rejected"
+			}
 		}
 	}
 	// balloons as advertised (zones) must agree with the white-box view
@@ -277,11 +280,14 @@ func checkBalloons(e *executor, r *stepResult) *vfkit.Violation {
 				names = append(names, b.Name)
 			}
 			sig := fmt.Sprintf("container-in-%d-balloons", len(bl))
-			if len(bl) == 0 && e.rejectedReconfigs > 0 {
+			// attribute the loss to the request in which this container lost its balloon
+			switch {
+			case len(bl) != 0:
+			case lost[c.ID] == "updateConfig-rejected":
 				sig += ":after-rejected-reconfiguration"
-			} else if len(bl) == 0 && (lost[c.ID] == "Synchronize" || (r.Handler == "Synchronize" && e.steps <= 1)) {
+			case lost[c.ID] == "Synchronize" || (r.Handler == "Synchronize" && e.steps <= 1):
 				sig = "container-without-balloon-after-synchronize-could-not-readmit-it"
-			} else if len(bl) == 0 && e.reconfigured {
+			case lost[c.ID] == "updateConfig":
 				sig = "container-without-balloon-after-accepted-reconfiguration"
 			}
 			return viol(P, "every managed container belongs to exactly one balloon", sig, "after %s: %s (state %s) is in balloons %v", r.Desc, c.ID, c.State, names)
